@@ -21,6 +21,13 @@ fn check_bracket_closed(chars: impl Iterator<Item = char>) -> bool {
     count <= 0
 }
 
+/// Verification hook (guard: `--cfg ruschm_verif`): public view of the private
+/// completeness test used by the REPL to decide when to submit the pending text.
+#[cfg(ruschm_verif)]
+pub fn verif_check_bracket_closed(s: &str) -> bool {
+    check_bracket_closed(s.chars())
+}
+
 pub fn run() {
     // currently rust is lack of higher kind type (HKT), so we need write f32 twice
     let it = Interpreter::<f32>::new_with_stdlib();
